@@ -112,8 +112,9 @@ package directive
 //@   loop 3 invariant forall(k, 0, len(rules), allocated(rules[k]) && typeIs(rules[k], "*aa.File") && len(as(rules[k], "*aa.File").Access) == 1 && as(rules[k], "*aa.File").Access[0] == transition)
 
 // Dbus.Apply reports an error exactly for the malformed directives that sanityCheck rejects;
-// otherwise it renders the rules of own / talk / common (rendering is a trusted callee) and
-// never indexes out of range.
+// otherwise it renders the rules of own / talk / common (rendering is a trusted callee) from
+// the arguments exactly as sanityCheck left them (path given as written, or the default),
+// and never indexes out of range.
 //@ func (Dbus).Apply
 //@   opt prop=C02,C07
 //@   opt storefirst=pkg/aa.IndentationLevel
@@ -121,6 +122,9 @@ package directive
 //@   requires Keyword == "#aa:"
 //@   assigns opt.ArgMap
 //@   ensures (second(result) != nil) == (len(opt.ArgList) < 1 || (opt.ArgList[0] != "own" && opt.ArgList[0] != "talk" && opt.ArgList[0] != "common") || !old(has(opt.ArgMap, "name")) || !old(has(opt.ArgMap, "bus")) || (!old(has(opt.ArgMap, "label")) && opt.ArgList[0] == "talk"))
+//@   ensures imp(second(result) == nil, opt.ArgMap["name"] == concat(old(opt.ArgMap["name"]), "{,.*}") && opt.ArgMap["bus"] == old(opt.ArgMap["bus"]) && opt.ArgMap["label"] == old(opt.ArgMap["label"]))
+//@   ensures imp(second(result) == nil && old(has(opt.ArgMap, "path")), opt.ArgMap["path"] == old(opt.ArgMap["path"]))
+//@   ensures imp(second(result) == nil && !old(has(opt.ArgMap, "path")), opt.ArgMap["path"] == concat(concat("/", ext("strings.ReplaceAll", old(opt.ArgMap["name"]), ".", "/")), "{,/**}"))
 
 // Generating directives (C07). #aa:dbus: sanityCheck accepts exactly the documented forms
 // and fills in the default path and the name pattern; own yields, on the named bus only,
